@@ -118,6 +118,43 @@ Theorem C09_forbidden_reported : forall c d1 d2 k v, c_forbid c = true -> ~ In k
 Proof. exact forbidden_reported. Qed.
 Print Assumptions C09_forbidden_reported.
 
+(* ---- class hierarchies: the alias sources and options the class *sees* ---- *)
+
+(* the declaration seen for a name is the one of the class's own body if any, else what the parent sees *)
+Theorem C09_nearest_declaration : forall n ls l,
+  lookup_decl n (collect (ls ++ [l]))
+  = match lookup_decl n (rev (l_decls l)) with Some p => Some p | None => lookup_decl n (collect ls) end.
+Proof. exact nearest_declaration. Qed.
+Print Assumptions C09_nearest_declaration.
+
+Theorem C09_nearest_config : forall ls l,
+  nearest_cfg (ls ++ [l]) = match l_cfg l with Some g => g | None => nearest_cfg ls end.
+Proof. exact nearest_config. Qed.
+Print Assumptions C09_nearest_config.
+
+(* every field name occurs once among the collected declarations (re-declaration replaces in place) *)
+Theorem C09_fields_unique : forall ls, NoDup (map dname (collect ls)).
+Proof. exact collect_nodup. Qed.
+Print Assumptions C09_fields_unique.
+
+Theorem C09_keys_hier : forall ls discr d,
+  impl_from_dict (class_of ls discr) d = Ok (keymodel (class_of ls discr) d).
+Proof. exact impl_eq_keymodel_hier. Qed.
+Print Assumptions C09_keys_hier.
+
+(* A.x alias "x_v1"; B(A).x alias "x_v2" and B's Config; C(B) re-declares nothing: C reads x from "x_v2";
+   y is re-declared init=False in B and is not read any more *)
+Example C09_nonvacuous_hier :
+  let ls := [mkL [(mkF "x" (Some "x_v1") None false, true); (mkF "y" None None true, true)]
+                 (Some (mkCfg [("x", "cx")] true false));
+             mkL [(mkF "x" (Some "x_v2") None false, true); (mkF "y" None None true, false)]
+                 (Some (mkCfg [] false true));
+             mkL [] None] in
+  effective ls = [mkF "x" (Some "x_v2") None false]
+  /\ keymodel (class_of ls None) [(KeyS "x_v2", 1%Z)] = OInst [("x", Some (KeyS "x_v2", 1%Z))]
+  /\ keymodel (class_of ls None) [(KeyS "x_v1", 1%Z); (KeyS "x_v2", 2%Z); (KeyS "y", 3%Z)] = OExtra [KeyS "x_v1"; KeyS "y"].
+Proof. repeat split; vm_compute; reflexivity. Qed.
+
 (* ---- non-vacuity: a class with all three sources, a shadowed alias (x's alias is the name of y),
         two Alias annotations, a discriminator; it exercises every rule ---- *)
 Definition ex_c (allow forbid: bool) : cls :=
